@@ -174,13 +174,20 @@ def gen_flags(rng, tree, all_subsets=False):
     return flags
 
 
-def flags_to_argv(flags):
+def flags_to_argv(flags, spell=0):
+    """spell selects between equivalent spellings of the same options (must not change any outcome)."""
     argv = []
+    short = {"minor": "-m", "patch": "-p"}
     for k in ("major", "minor", "patch"):
         if flags.get(k):
-            argv.append("--" + k)
+            argv.append(short[k] if (spell & 1 and k in short) else "--" + k)
     if flags.get("tag"):
-        argv += ["--tag", flags["tag"]]
+        if spell & 2:
+            argv.append("--tag=" + flags["tag"])
+        elif spell & 4:
+            argv += ["-t", flags["tag"]]
+        else:
+            argv += ["--tag", flags["tag"]]
     if flags.get("tag_num"):
         argv.append("--tag-num")
     if flags.get("pin_date"):
